@@ -47,21 +47,17 @@ def inputs(ctx, big=False):
            "&auml;rger", "&AUML;RGER", "foo&nbsp;bar", "a&#32;&#32;b", "x &amp;lt; y", "&szlig;", "&eacute;T&Eacute;", "&nbsp;", "&#x41;&#97;", "&Auml;&auml;"]
     # URLs assembled from their RFC 3986 components (IPv6 / IPvFuture literals with zone ids, user info, ports, IDN hosts, encoded octets),
     # with an unsafe character dropped into each component in turn
-    unsafe = ['"', "<", ">", " ", "'", "`", "\\", "{", "|", "^", "\u00e9", "\n", "\t", "[", "]", "&quot;", "&lt;", "&#34;", "%22", "\x7f", "\u202e"]
-    hosts = ["[::1]", "[fe80::1%25eth0]", "[fe80::1%eth0]", "[2001:db8::ff00:42:8329]", "[::ffff:192.0.2.1]", "[v1.fe80::a+en1]", "[::]", "[1:2:3:4:5:6:7:8]", "[fe80::1%25]", "[::1%25a%25b]",
-             "127.0.0.1", "example.com", "b\u00fccher.de", "xn--bcher-kva.de", "%65xample.com", "localhost", "", "[", "[]", "[::1", "::1]"]
     for _ in range(20000 if (big or not ctx.quick()) else 3000):
-        comp = [ctx.rng.choice(["http", "https", "ftp", "HTTP", "x+y.z-w", "", "mailto", "data"]), ctx.rng.choice(["://", "://", ":", "//", ":/"]), ctx.rng.choice(["", "", "user@", "u:p@", "@"]),
-                ctx.rng.choice(hosts), ctx.rng.choice(["", "", ":80", ":", ":x"]), ctx.rng.choice(["", "/", "/p/q", "/a%20b", "/%zz"]), ctx.rng.choice(["", "?a=1&b=2", "?", "?q=[x]"]), ctx.rng.choice(["", "#f", "#", "#a#b"])]
-        for _k in range(ctx.rng.randint(0, 2)):
-            j = ctx.rng.randrange(len(comp))
-            u = ctx.rng.choice(unsafe)
-            c = comp[j]
-            cut = ctx.rng.randint(0, len(c))
-            if c.endswith("]") and ctx.rng.random() < 0.6:
-                cut = len(c) - 1             # inside the bracketed literal, at its end (zone id position)
-            comp[j] = c[:cut] + u + c[cut:]
-        xs.append("".join(comp))
+        xs.append(gen.url_struct(ctx.rng))
+    # characters with special case mappings (multi-character upper / lower forms, final sigma, iota subscript, dotted / dotless i) next to combining marks of
+    # several combining classes: any re-ordering or re-composition step in front of the case folding shows here
+    special = [chr(i) for i in range(0x80, 0x2FFF) if len(chr(i).upper()) > 1 or len(chr(i).lower()) > 1 or chr(i).upper().lower() != chr(i).lower() or chr(i).lower().upper() != chr(i).upper()]
+    marks = ["\u0301", "\u0345", "\u0323", "\u0308", "\u05b0", "\u093c", "\u3099", "\u0342", "\u0313"]
+    pick = special if (big or not ctx.quick()) else ctx.rng.sample(special, min(len(special), 160))
+    for ch in pick:
+        for mk in (marks if (big or not ctx.quick()) else ctx.rng.sample(marks, 3)):
+            xs += [ch + mk + "\u03b4\u03c9", mk + ch, "a " + ch + mk + mk[::-1] + " b"]
+    xs += [chr(i) + "\u0301\u03b4\u03c9" for i in range(0x1F80, 0x1FFD)] + ["\u0345\u0301x", "x\u0345\u0301", "\uff21\uff42", "\ufb01 \ufb03", "\u2126\u00b5\u212b", "e\u0301 \u00e9"]
     for ch in ("\u212a", "\u017f", "\u0131", "\u0130"):
         xs += ["data:image/png;base64,iVBORw0%sGgo=" % ch, "http://e%sample.com/%s" % (ch, ch), "DATA:IMAGE/PNG;BASE64,%s" % ch, "javascript%s:x" % ch, "%%4%s" % ch, ch + "&amp;" + ch]
     return xs
